@@ -224,9 +224,19 @@ def tau (cfg : Config) (x : XState) : List XState :=
    | .writing _ => if x.permits > 0 then [{ s := strip (step cfg x.s (.finish .ok)), permits := x.permits - 1 }] else []
    | _ => [])
 
-/-- everything reachable by uncontrolled steps (each strictly consumes a pending item or a permit: `fuel` bounds it) -/
+/-- MARKER of an exploration that ran out of fuel with work left: a state whose delivery goroutine is dead (never reached
+    otherwise: the exploration only takes `finish .ok`).  It has no successors, no controlled action changes its `cons`,
+    so it survives to the end of the script, where `inconclusive` finds it and `outcomes` leaves it out. -/
+def exhaustMark : XState := { s := { prods := [], cons := .dead }, permits := 0 }
+
+def XState.isMark (x : XState) : Bool := x.s.cons == .dead
+
+/-- everything reachable by uncontrolled steps (each strictly consumes a pending item or a permit: `fuel` is meant to
+    bound it; NO theorem says `fuelFor` suffices — if it does not, the result carries `exhaustMark` and the verdict of the
+    judge is "inconclusive", never "ok") -/
 def closure (cfg : Config) : Nat → List XState → List XState → List XState
-  | 0, _, acc => acc
+  | 0, [], acc => acc
+  | 0, _ :: _, acc => exhaustMark :: acc
   | _ + 1, [], acc => acc
   | fuel + 1, x :: todo, acc =>
     if acc.contains x then closure cfg fuel todo acc
@@ -263,9 +273,21 @@ def dedup {α : Type} [BEq α] : List α → List α
   | [] => []
   | a :: as => if as.contains a then dedup as else a :: dedup as
 
+/-- the states the script can end in -/
+def finalStates (cfg : Config) (x0 : XState) (script : List Tok) : List XState :=
+  script.foldl (applyTok cfg) (close cfg [x0])
+
+/-- the exploration was cut short somewhere: the set of outcomes may be incomplete -/
+def inconclusiveIn (xs : List XState) : Bool := xs.any (·.isMark)
+
+def outcomesIn (xs : List XState) : List (List (Nat × Nat)) :=
+  dedup ((xs.filter (!·.isMark)).map fun x => (finalWrites x.s).map fun it => (it.pid, it.idx))
+
 /-- the possible final sink contents (as producer/index pairs, in order) of a scripted run started in `x0` -/
 def outcomes (cfg : Config) (x0 : XState) (script : List Tok) : List (List (Nat × Nat)) :=
-  dedup ((script.foldl (applyTok cfg) (close cfg [x0])).map fun x => (finalWrites x.s).map fun it => (it.pid, it.idx))
+  outcomesIn (finalStates cfg x0 script)
+
+def inconclusive (cfg : Config) (x0 : XState) (script : List Tok) : Bool := inconclusiveIn (finalStates cfg x0 script)
 
 end TraceProto
 
